@@ -80,7 +80,24 @@ def main(chk):
                   {"t": "dict", "keys": [[{"key": deep.VStr([97]), "val": bad, "opt": True}]]},
                   {"t": "any", "types": [[bad, {"t": "none"}]]}):
             fixed.append((s, am.g_schema(s)))
-    for s, real in fixed + deep.schemas(chk.rng, ndeep, ddepth):
+    # string schemas over random programs of the supported regex grammar (the constructors of
+    # spec/MC_Regex.tla, as in C09's driver), generated through the module-level fake()
+    from . import c09
+    patterns = []
+    tries = 0
+    while len(patterns) < (300 if quick else 3000) and tries < 50000:
+        tries += 1
+        rx = c09.rand_rx(chk.rng, chk.rng.randrange(1, 5))
+        if rx is None or deep._has_uns(rx) or c09.worst_len(rx, 32) > 70:
+            continue
+        s = dict(deep.STR0, pattern=[{"k": "pat", "rx": rx}])
+        try:
+            real = am.g_schema(s)
+            if am.a_schema(real) == s:
+                patterns.append((s, real))
+        except Exception:
+            pass
+    for s, real in fixed + patterns + deep.schemas(chk.rng, ndeep, ddepth):
         cache.cache[valgen.key(s)] = (real, None)
         for tape in (["lo"], ["hi"], ["lo1", "hi"], []):
             if tape:
